@@ -4,7 +4,8 @@
 (*   pend  = ids in the pending map,  get = ids GetChunkBytes returns,  min = minimumExpiry,              *)
 (*   w     = per-producer pending weight (read through CheckRateLimit),  certs = GatherChunkCerts.        *)
 (* The reopen line must show the same pend/get/min/w as the line before it (ReopenInvisible, evaluated   *)
-(* as an action property) and every line must be explained by the model's action.                         *)
+(* as an action property) and every line must be explained by the model's action.  A crash line (process   *)
+(* death inside a call + reopen) must show the complete state before or after that call.                  *)
 EXTENDS DSMRStorage, Json, IOUtils, Sequences, SequencesExt
 
 VARIABLE l
@@ -45,7 +46,17 @@ TSetMin   == Ev("setmin")   /\ SetMin(T.t, Set(T.save)) /\ ResOK /\ ObsOK
 (* which certificates survive a reopen is taken from the log: the statement does not constrain it *)
 TReopen   == Ev("reopen")   /\ Reopen(Set(T.certs) \cap dPend) /\ ObsOK
 
-TraceNext == TReset \/ TAddLocal \/ TRemote \/ TSetCert \/ TSetMin \/ TReopen
+(* crash point inside a call (the driver's database refused the (writes+1)-th durable write of the call, the        *)
+(* storage was opened again): what is observed must be the image before the call or the image after the whole call *)
+TCrash ==
+  /\ Ev("crash")
+  /\ CASE T.op = "setmin" -> /\ T.t >= min /\ Set(T.save) \subseteq pend
+                              /\ CrashDuring(SetMinImage(T.t, Set(T.save), TRUE), Set(T.certs))
+       [] T.op \in {"addlocal", "remote"} -> CrashDuring(PutImage(T.c), Set(T.certs))
+       [] OTHER -> FALSE
+  /\ ObsOK
+
+TraceNext == TReset \/ TAddLocal \/ TRemote \/ TSetCert \/ TSetMin \/ TReopen \/ TCrash
 TraceSpec == TraceInit /\ [][TraceNext]_tvars
 
 HWM      == TLCSet(1, IF TLCGet(1) > l - 1 THEN TLCGet(1) ELSE l - 1)
